@@ -33,7 +33,7 @@ hold data returns a cell that holds data and is a `Constant` (or the kernel itse
 theorem complete_step (h h' : Heap Val) (op : String) (args : List Nat) (vs : List Val)
     (hall : allEager h args = some vs) (hstep : step sem true h (.prim op args) = some h') :
     ∃ v, sem op vs = some v ∧ h' = h ++ [⟨.const v, some v⟩] := by
-  simp only [step, if_true, hall] at hstep
+  simp only [step, resolve, stepBase, if_true, hall] at hstep
   cases hv : varsOf h args with
   | none => simp [hv] at hstep
   | some vars =>
@@ -71,17 +71,18 @@ theorem allEager_of_AllEager (h : Heap Val) (ha : AllEager h) :
         | none => exact absurd he (ha c (List.mem_of_getElem? hc))
         | some v => exact ⟨v :: ws, by simp [allEager, hc, he, hws]⟩
 
-theorem step_allEager (h h' : Heap Val) (s : Step Val) (hnp : ∀ n, s ≠ .placeholder n)
-    (ha : AllEager h) (hstep : step sem true h s = some h') : AllEager h' := by
+theorem stepBase_allEager (h h' : Heap Val) (s : Step Val) (hnp : ∀ n, s ≠ .placeholder n)
+    (ha : AllEager h) (hstep : stepBase sem true h s = some h') : AllEager h' := by
   cases s with
+  | guarded op args g choice => simp [stepBase] at hstep
   | data v =>
-    simp only [step, Option.some.injEq] at hstep; subst hstep
+    simp only [stepBase, Option.some.injEq] at hstep; subst hstep
     intro c hc; rcases mem_append_single hc with hc | hc
     · exact ha c hc
     · subst hc; simp
   | placeholder n => exact absurd rfl (hnp n)
   | prim op args =>
-    simp only [step, if_true] at hstep
+    simp only [stepBase, if_true] at hstep
     cases hv : varsOf h args with
     | none => simp [hv] at hstep
     | some vars =>
@@ -96,7 +97,7 @@ theorem step_allEager (h h' : Heap Val) (s : Step Val) (hnp : ∀ n, s ≠ .plac
         · exact ha c hc
         · subst hc; simp
   | copy r =>
-    simp only [step] at hstep
+    simp only [stepBase] at hstep
     cases hr : h[r]? with
     | none => simp [hr] at hstep
     | some c0 =>
@@ -108,7 +109,7 @@ theorem step_allEager (h h' : Heap Val) (s : Step Val) (hnp : ∀ n, s ≠ .plac
         | none => exact absurd he (ha c0 (List.mem_of_getElem? hr))
         | some v => simp
   | set dst src =>
-    simp only [step] at hstep
+    simp only [stepBase] at hstep
     cases hr : h[src]? with
     | none => simp [hr] at hstep
     | some c0 =>
@@ -120,6 +121,28 @@ theorem step_allEager (h h' : Heap Val) (s : Step Val) (hnp : ∀ n, s ≠ .plac
         · exact ha c hc
         · subst hc; exact ha c0 (List.mem_of_getElem? hr)
       · simp at hstep
+
+theorem resolve_not_placeholder (h : Heap Val) (s : Step Val) (hnp : ∀ n, s ≠ .placeholder n) :
+    ∀ n, resolve h s ≠ .placeholder n := by
+  intro n
+  cases s with
+  | guarded op args g choice =>
+    simp only [resolve]
+    intro hh
+    split at hh
+    · split at hh
+      · split at hh <;> cases hh
+      · cases hh
+    · cases hh
+  | data v => simp [resolve]
+  | placeholder m => exact absurd rfl (hnp m)
+  | prim op args => simp [resolve]
+  | copy r => simp [resolve]
+  | set d s' => simp [resolve]
+
+theorem step_allEager (h h' : Heap Val) (s : Step Val) (hnp : ∀ n, s ≠ .placeholder n)
+    (ha : AllEager h) (hstep : step sem true h s = some h') : AllEager h' :=
+  stepBase_allEager sem h h' (resolve h s) (resolve_not_placeholder h s hnp) ha hstep
 
 /-- **Completeness over histories.** With onnxruntime present, a history that creates no
 placeholder leaves *every* cell holding data, and every cell is a `Constant` — so exporting any of
